@@ -479,12 +479,14 @@ Plan nav_generate(uint64_t base, const std::string &prop, uint64_t index, int ti
     if (rl.chance(1, 2)) p.par["lead"] = 1 + (int64_t)rl.below(15);     // the message does not start on an allocator boundary
     if (prop == "C11" && rl.chance(1, 5)) p.par["arena"] = 1;
     Node root;
+    int deep_levels = 0;
     if (rd.chance(3, 100)) {
         root.t = p.root ? V_ARR : V_OBJ;
         int od = 1 + (int)rd.below(tier ? 250 : 30), ad = (int)rd.below(tier ? 200 : 30);
         if (rd.chance(1, 3)) { static const int T[] = {7, 8, 9, 15, 16, 17, 31, 32, 33, 63, 64, 65, 127, 128, 129}; if (rd.chance(1, 2)) od = T[rd.below(15)]; else ad = T[rd.below(15)]; }
         deep_shape(rd, root, p.root != 0, od, ad);
         p.faults.push_back("shape:deep");
+        deep_levels = od + ad;
     } else root = gen_tree(rd, k, p.root != 0);
     encode(root, p.doc);
     int need = std::max(1, need_depth(root, p.root != 0));
@@ -507,10 +509,26 @@ Plan nav_generate(uint64_t base, const std::string &prop, uint64_t index, int ti
     if (prop == "C16" && r.fork("nocb").chance(1, 4)) p.par["nocb"] = 1;   // termination without a callback to count steps: decided by the CPU-time watchdog alone
     if (prop == "C11" && ro.chance(1, 2)) p.par["extw"] = 1 + (int64_t)ro.below(2);
     int nops = 1 + (int)ro.below(tier ? 120 : 80);
+    int w_restart_scale = 1;
     if (k.wide) { nops = k.wide + (int)ro.below(200); w_next += 200; }     // long enough to walk across the wide container
+
     GenCursor g; g.root = &root; g.cur.root = &root; g.cur.array_root = p.root != 0; g.cur.doc_len = p.doc.size();
     std::vector<Node> dummy;
+    if (deep_levels > 8 && ro.chance(2, 3)) {
+        // a deep document: first walk down (next until a container is reached, enter it) to a chosen level - often the very
+        // bottom - so that the random part of the history happens THERE, at object / array depths of 100 and more
+        int target = ro.chance(1, 2) ? deep_levels + 1 : 1 + (int)ro.below((uint64_t)deep_levels + 1);
+        int guard = 0;
+        while (guard++ < 4 * deep_levels + 16 && (int)g.cur.st.size() < target) {
+            Op op;
+            if (!g.cur.entered || (!g.cur.st.empty() && g.cur.st.back().pending)) op.code = M_ENTER;
+            else { const Frame &f = g.cur.st.back(); if (f.next >= f.c->kids.size()) break; op.code = M_NEXT; }
+            p.ops.push_back(op); g.apply(op);
+        }
+        p.faults.push_back(fmt("shape:descent=%zu", g.cur.st.size()));
+    }
     int w_restart = ro.chance(1, 2) ? 3 + (int)ro.below(12) : 0;       // half of the histories restart the parser now and then
+    (void)w_restart_scale;
     for (int i = 0; i < nops; i++) {
         struct Cand { int code; int w; } cands[] = {{M_ENTER, w_enter}, {M_NEXT, w_next}, {M_LEAVE, w_leave}, {M_OBSERVE, w_obs}, {M_STREQ, w_streq},
                                                     {M_FIELD, w_field}, {M_FIELD_ENS, w_ens}, {M_RAW, w_raw}, {M_TO_WRITER, w_tw}, {M_RESTART, w_restart}};
